@@ -434,7 +434,8 @@ def cmd_check(prop, tier, repo, seed):
     ev = dict(
         property_id=prop, tier=tier, seed=seed, level=OBL.LEVEL.get(prop, 'proof'),
         coverage=dict(
-            obligations=len(all_obs), discharged=len(discharged) + len([1 for o in all_obs if results[o['name']]['status'] == 'known-finding' and False]),
+            obligations=len([o for o in all_obs if results[o['name']]['status'] != 'known-finding']), discharged=len(discharged),
+            known_finding_obligations=[o['name'] for o in all_obs if results[o['name']]['status'] == 'known-finding'],
             checker_cmd='; '.join(cmds) if cmds else 'cargo kani',
             trusted_base=BASE_TRUST + OBL.TRUST.get(prop, []),
             samples=samples,
